@@ -178,3 +178,45 @@ Proof.
       split; [vm_compute; reflexivity|]. split; vm_compute; reflexivity.
     + split; vm_compute; reflexivity.
 Qed.
+
+(* the value of a completed read of ordinary memory *)
+Lemma read_mem_value e a c s s1 w : read_mem e a c s = (s1, inl w) -> (IO_START <=? a) = false -> w = mget (s_mem s) a.
+Proof.
+  unfold read_mem. destruct (negb (c_priv c) && negb (in_user a)); [discriminate|]. intros E IO. rewrite IO in E.
+  inversion E. destruct (c_track c); reflexivity.
+Qed.
+
+(* LDI / STI whose pointer cell lies in ordinary memory: the pointer is the word stored there before the step *)
+Theorem step_obs_ldi e s s' u s1 w dr off : Completed e s s' u s1 w (SLDI dr off) ->
+  (IO_START <=? s_pc s) = false ->
+  let pa := wrap16 (wrap16 (s_pc s + 1) + off) in
+  (IO_START <=? pa) = false ->
+  s_obs s' = obs_update (obs_update [(s_pc s, OBS_READ)] pa OBS_READ) (w_data (mget (s_mem s) pa)) OBS_READ.
+Proof.
+  intros C PIO pa IO. destruct (step_exec _ _ _ _ _ _ _ C) as (s3 & O & X & S'). rewrite S'.
+  destruct C as (_ & _ & FETCH & _).
+  destruct (read_mem_keeps _ _ _ _ _ _ FETCH) as (Pk & Rk & Mm). specialize (Mm PIO).
+  destruct (exec_obs_ldi _ _ _ _ _ _ X) as (t & w2 & R2 & H). rewrite O in H.
+  cbn [after_fetch upd_prefetch upd_pc s_pc] in R2, H. rewrite Pk in R2, H. fold pa in R2, H.
+  rewrite (read_mem_value _ _ _ _ _ _ R2 IO) in H. cbn [after_fetch upd_prefetch upd_pc s_mem] in H. rewrite Mm in H. exact H.
+Qed.
+
+Theorem step_obs_sti e s s' u s1 w sr off : Completed e s s' u s1 w (SSTI sr off) ->
+  (IO_START <=? s_pc s) = false ->
+  let pa := wrap16 (wrap16 (s_pc s + 1) + off) in
+  (IO_START <=? pa) = false ->
+  let ea := w_data (mget (s_mem s) pa) in
+  (IO_START <=? ea) = false ->
+  s_obs s' = let o := obs_update (obs_update [(s_pc s, OBS_READ)] pa OBS_READ) ea OBS_WRITTEN in
+             if word_eqb (mget (s_mem s) ea) (rget (s_regs s) sr) then o else obs_update o ea OBS_MODIFIED.
+Proof.
+  intros C PIO pa IO ea EIO. destruct (step_exec _ _ _ _ _ _ _ C) as (s3 & O & X & S'). rewrite S'.
+  destruct C as (_ & _ & FETCH & _).
+  destruct (read_mem_keeps _ _ _ _ _ _ FETCH) as (Pk & Rk & Mm). specialize (Mm PIO).
+  destruct (exec_obs_sti _ _ _ _ _ _ X) as (t & w2 & R2 & H). rewrite O in H.
+  cbn [after_fetch upd_prefetch upd_pc s_pc] in R2, H. rewrite Pk in R2, H. fold pa in R2, H.
+  pose proof (read_mem_value _ _ _ _ _ _ R2 IO) as V. cbn [after_fetch upd_prefetch upd_pc s_mem] in V. rewrite Mm in V.
+  destruct (read_mem_keeps _ _ _ _ _ _ R2) as (_ & Rk2 & Mm2). specialize (Mm2 IO).
+  cbn [after_fetch upd_prefetch upd_pc s_regs s_mem] in Rk2, Mm2. rewrite Rk in Rk2. rewrite Mm in Mm2.
+  subst w2. fold ea in H. rewrite Rk2, Mm2 in H. exact (H EIO).
+Qed.
